@@ -84,9 +84,12 @@ var dClients = []struct {
 	// a long client identifier (RFC 4361 style DUID, 52 octets): replies that echo it carry more than the 60 bytes
 	// of options that fit the 300-byte BOOTP minimum
 	{mC5, append([]byte{255, 0xaa, 0xbb, 0xcc, 0xdd, 0, 2}, bytes.Repeat([]byte{0xd1, 0x1d}, 22)...)},
+	// the same station as k0 presenting the conventional identifier (type 1 + its MAC): 7 bytes that differ from
+	// k0's implicit identifier (the bare chaddr) only by the leading type octet - still another client
+	{mC1, append([]byte{1}, hMACs[mC1][:]...)},
 }
 
-const dN = 6 // number of client identities
+const dN = 7 // number of client identities
 
 func (c dhcpCfg) nic() nicCfg {
 	w := gen.DefaultWorld()
